@@ -164,6 +164,17 @@ func BuildOpts(kind string, s *model.Schema, sdl string, g *model.Graph, o Opts)
 	return h, nil
 }
 
+// Prebuild creates the application objects of all nodes now, on the calling goroutine. Objects are otherwise made when a
+// resolver first hands them out, which is the harness's own business and must not happen inside a concurrent workload
+// (a reflection object is published to the harness's table before its fields are filled in).
+func (h *Harness) Prebuild() {
+	for _, n := range h.G.Nodes {
+		if n != h.G.Root {
+			h.obj(n)
+		}
+	}
+}
+
 // Reset clears the call log and installs a fault plan.
 func (h *Harness) Reset(plan model.FaultPlan) {
 	h.mu.Lock()
